@@ -1,7 +1,7 @@
 /-
   C05 — A modal screen blocks its caller and shields everything beneath it.
 
-  Property theorems only; proofs in `Simpleline/Lemmas/Shape{Modal,Frames,Window,Shield}.lean`,
+  Property theorems only; proofs in `Simpleline/Lemmas/Shape{Modal,Frames,Window,Shield,Intact}.lean`,
   vocabulary in `Simpleline/Spec/ShapeSpec.lean`.
 
   Reading guide.  `push_screen_modal(scr, args)` is the instruction `pushModal scr args`: it appends the
@@ -29,7 +29,10 @@
     form `WFQuiet c` (no signal pending when `close_loop` was *called*) is not sufficient in this model,
     where the reader thread may deliver a line between the call and the drain (`Reach.deliver`).
 
-  NOT PROVED (see the comment block at the end): `C05_intact`.
+  * for the intact clause additionally `WFDrain` and `NoStackOpAfterClose q tr` (history: after `close_loop`
+    popped the modal screen's level, no stack operation before `push_screen_modal` returns).  Needed:
+    `C05_intact_needs_NoStackOpAfterClose`.  `C05_intact` is stated at the moment the modal loop's
+    activation returns (the next two steps are `_run_loop = True` and the `.modalEnd` statement).
 -/
 import Simpleline.Lemmas.ShapeExamplesModal
 
@@ -37,7 +40,7 @@ namespace Simpleline
 
 open Shape
 
-variable {P : Prog} {c0 c c' : Cfg}
+variable {P : Prog} {c0 c c' c1 c2 c3 : Cfg}
 
 /-! ### modal entries and levels correspond -/
 
@@ -106,6 +109,34 @@ theorem C05_shield (h0 : Started c0) (hi : InitScreenOnly c0) (hP : ScreenOnly P
     pendOpens c.code = 0 ∧ pendCloses c.code = 0 ∧ modalCount c.A.stack + 1 = c.L.levels.length ∧
     (Tr.show x ∈ newTr c c' → ∃ l, c.A.stack.getLast? = some l ∧ l.eid = x.eid) :=
   shield h0 hi hP hC hr ht hn hq hx
+
+/-! ### intact -/
+
+/-- **The caller's screen is still there, in its place.** Let `push_screen_modal scr args` be executed
+in a reachable configuration `c` (stack `S`), creating entry `e` and — in the next step,
+`execute_new_loop` — level `q`.  Let, at any later point of the execution, the activation serving level
+`q` return (`.loopReturn q`: `push_screen_modal` is about to return).  Then, under the hypotheses of the
+shield clause, a well-formed history without force-quit, and provided the code that closed the modal
+screen performed no further stack operation after `close_loop` had popped level `q`
+(`NoStackOpAfterClose`):
+* the stack is `ins ++ S`: exactly the entries that were beneath `e`, in the same order, above only
+  what `schedule_screen` inserted at the bottom meanwhile (`ins`, all non-modal) — nothing beneath the
+  modal screen was removed, replaced or reordered, however many screens were pushed, replaced and
+  closed on top of it in the meantime, and the modal entry (or what replaced it) is gone;
+* the code is `mainCheck q :: modalRet e :: K0`, and the transition leaves `restoreRun :: modalRet e :: K0`
+  with the same stack: `_run_loop` is set again, `.modalEnd e` is logged and the application continues
+  with the statement after the call (`K0`); by `C03_resumes` the level stack and the active queue are
+  those of the call, and by `C03_held` (Props/C03.lean) nothing queued for the enclosing levels was lost. -/
+theorem C05_intact (h0 : Started c0) (hi : InitScreenOnly c0) (hP : ScreenOnly P) (hC : ClosedSilent P)
+    (hr : Reach P c0 c) {scr : Nat} {args : Option Nat} {K0 : List Instr}
+    (hc : c.code = .pushModal scr args :: K0) (hs1 : step P c = .ok c') (hs2 : step P c' = .ok c1)
+    (hr2 : Reach P c1 c2) (ht : Trans P c2 c3) (hret : Tr.loopReturn c.L.queues.length ∈ newTr c2 c3)
+    (hn : NoErr c3) (hq : WFQuietDrain c3) (hw : WFClose c3) (hd : WFDrain c3) (hf : NoForceQuit c3)
+    (hafter : NoStackOpAfterClose c.L.queues.length (newTr c1 c2)) :
+    (∃ ins, c2.A.stack = ins ++ c.A.stack ∧ ∀ y ∈ ins, y.modal = false) ∧
+    c2.code = .mainCheck c.L.queues.length :: .modalRet ⟨c.A.nextEid, scr, args, true⟩ :: K0 ∧
+    c3.code = .restoreRun :: .modalRet ⟨c.A.nextEid, scr, args, true⟩ :: K0 ∧ c3.A.stack = c2.A.stack :=
+  intact' h0 hi hP hC hr hc hs1 hs2 hr2 ht hret hn hq hw hd hf hafter
 
 /-! ### the hypotheses are needed, and satisfiable -/
 
@@ -179,31 +210,35 @@ example :
   obtain ⟨⟨h1, h2⟩, h3⟩ := hf
   exact ⟨_, _, c, c', ShapeEx.entry1, ShapeEx.startedS, hr, ht, h2, h3, h1⟩
 
-/-
-  NOT PROVED — `C05_intact`:
+/-- `NoStackOpAfterClose` is needed for `C05_intact`: in `ShapeEx.progTwice` the modal screen's callback
+calls `close_screen()` twice — it closes itself (its level is popped) and then, before
+`push_screen_modal` has returned, its parent.  All other hypotheses hold; at the return only one of the
+two entries that were beneath the modal entry is left.  Kernel-checked. -/
+theorem C05_intact_needs_NoStackOpAfterClose :
+    ∃ (P : Prog) (c0 c c' c1 c2 c3 : Cfg) (scr : Nat) (args : Option Nat) (K0 : List Instr),
+      Started c0 ∧ InitScreenOnly c0 ∧ ScreenOnly P ∧ ClosedSilent P ∧ Reach P c0 c ∧
+      c.code = .pushModal scr args :: K0 ∧ step P c = .ok c' ∧ step P c' = .ok c1 ∧ Reach P c1 c2 ∧ Trans P c2 c3 ∧
+      Tr.loopReturn c.L.queues.length ∈ newTr c2 c3 ∧ NoErr c3 ∧ WFQuietDrain c3 ∧ WFClose c3 ∧ WFDrain c3 ∧
+      NoForceQuit c3 ∧ ¬ NoStackOpAfterClose c.L.queues.length (newTr c1 c2) ∧
+      c2.A.stack.length < c.A.stack.length := by
+  obtain ⟨c, c', c1, c2, c3, scr, args, K, hr, hc, hs1, hs2, hr2, ht, hf⟩ := testModal_spec ShapeEx.twice_check
+  simp only [Bool.and_eq_true, decide_eq_true_eq, Bool.not_eq_true', decide_eq_false_iff_not] at hf
+  obtain ⟨⟨⟨⟨⟨⟨⟨⟨h1, h2⟩, h3⟩, h4⟩, h5⟩, h6⟩, h7⟩, h8⟩, h9⟩ := hf
+  exact ⟨_, _, c, c', c1, c2, c3, scr, args, K, ShapeEx.startedTwice, ShapeEx.initTwice, ShapeEx.progTwice_screenOnly,
+    ShapeEx.progTwice_closedSilent, hr, hc, hs1, hs2, hr2, ht, h1, h2, h3, h4, h5, h6, h7, by rw [h8, h9]; decide⟩
 
-    "When the call returns the caller's screen is still on the stack in its place, nothing that was
-     queued for it has been lost, and the application continues from the statement after the call."
-
-  * "continues from the statement after the call" IS proved: `C03_resumes` / `C03_resumes_frame`
-    (Props/C03b.lean) apply to the `newLoop` of `push_screen_modal` with continuation
-    `K = modalRet e :: rest`: the code is exactly `K` again after the return, levels and active queue
-    as before the call.
-  * "nothing that was queued for it has been lost" is `C03_held` / `C03_held_until_taken` of
-    Props/C03.lean (nothing is taken from a queue that is not the active one) together with
-    `C03_resumes` (the level stack is restored).
-  * "the caller's screen is still on the stack in its place" — formally: at `.modalEnd e` the entries
-    that were beneath `e` at `.modalBegin e` are still on the stack, in order, directly above whatever
-    `schedule_screen` inserted at the bottom meanwhile — is not proved.  It needs the positional
-    refinement of `C05_levels_match_modals` (the k-th nested level belongs to the k-th modal entry, and
-    the entries beneath that entry are untouched while the level is open), which I did not get to.
-    It is also FALSE without a further hypothesis on what the application does between the
-    `close_loop` that ends the modal loop and the return of `push_screen_modal` (the rest of the
-    handler that closed the screen still runs there): a modal screen whose callback calls
-    `close_screen()` twice closes itself and then its parent — the second call pops the parent after
-    level `q` was closed and before `.modalEnd e`.  (With screens `[5, 0]` scheduled, `0` pushing the
-    modal `1` and `1` doing `[closeDirect, closeDirect]`, the stack at `.modalEnd` is `[5]`.)  The
-    hypothesis would be history-decidable: no `.stackOp` between `.closeLevel q` and `.loopReturn q`.
--/
+/-- Non-vacuity of `C05_intact`: in `ShapeEx.progModal` all its hypotheses hold for the modal push and the
+return of its loop. -/
+example :
+    ∃ (P : Prog) (c0 c c' c1 c2 c3 : Cfg) (scr : Nat) (args : Option Nat) (K0 : List Instr),
+      Started c0 ∧ InitScreenOnly c0 ∧ ScreenOnly P ∧ ClosedSilent P ∧ Reach P c0 c ∧
+      c.code = .pushModal scr args :: K0 ∧ step P c = .ok c' ∧ step P c' = .ok c1 ∧ Reach P c1 c2 ∧ Trans P c2 c3 ∧
+      Tr.loopReturn c.L.queues.length ∈ newTr c2 c3 ∧ NoErr c3 ∧ WFQuietDrain c3 ∧ WFClose c3 ∧ WFDrain c3 ∧
+      NoForceQuit c3 ∧ NoStackOpAfterClose c.L.queues.length (newTr c1 c2) ∧ c.A.stack = [ShapeEx.entry0] := by
+  obtain ⟨c, c', c1, c2, c3, scr, args, K, hr, hc, hs1, hs2, hr2, ht, hf⟩ := testModal_spec ShapeEx.modal_intact_check
+  simp only [Bool.and_eq_true, decide_eq_true_eq] at hf
+  obtain ⟨⟨⟨⟨⟨⟨⟨⟨h1, h2⟩, h3⟩, h4⟩, h5⟩, h6⟩, h7⟩, _⟩, h9⟩ := hf
+  exact ⟨_, _, c, c', c1, c2, c3, scr, args, K, ShapeEx.startedS, ShapeEx.initS, ShapeEx.progModal_screenOnly,
+    ShapeEx.progModal_closedSilent, hr, hc, hs1, hs2, hr2, ht, h1, h2, h3, h4, h5, h6, h7, h9⟩
 
 end Simpleline
